@@ -887,15 +887,15 @@ def oracle_order(w, call, before, after, res):
             if p:
                 return p
     if k == 'binsert':
-        order = sorted(range(len(call['ins'])), key=lambda j: call['ins'][j][0])
+        # an index means what it means for insert (negative: counted from the end, then clamped)
         groups = {}
-        for j in order:
-            groups.setdefault(call['ins'][j][0], []).append(call['ins'][j][1])
+        for i, tree in call['ins']:
+            groups.setdefault(i if i >= 0 else max(n + i, 0), []).append(tree)
         seq = []
-        for i in sorted(groups):
-            trees = list(reversed(groups[i]))
+        for eff in sorted(groups):
+            trees = list(reversed(groups[eff]))
             us = [u for t in trees for u in item_uids(t)]
-            kk = clamp(i, n)
+            kk = min(eff, n)
             p = check([(x, y) for a, x in enumerate(us) for y in us[a + 1:]], 'batch_insert: operations inserted at one index among themselves')
             p = p or check([(e, x) for e in fb if pb[e][1] < kk for x in us], 'batch_insert: inserted operations come after everything before their index')
             if not (kk < n and sum(len(t) for t in trees) > 1):
@@ -1371,6 +1371,21 @@ def shrink(cirq, vocab, doc, kind):
                 cand = calls[:i] + [c2] + calls[i + 1:]
                 if fails(dict(doc, calls=cand)):
                     calls, changed = cand, True
+    # a negative batch_insert index is replaced by the equivalent non-negative one when the failure survives that
+    for i, c in enumerate(calls):
+        if c['c'] == 'binsert' and any(e[0] < 0 for e in c['ins']):
+            try:
+                w = World(cirq, vocab, doc['ops'])
+                for c0 in calls[:i]:
+                    if not c0.get('syn'):
+                        exec_call(w, c0)
+                n0 = len(w.c)
+            except Exception:
+                continue
+            c2 = dict(c, ins=[[clamp(e[0], n0), e[1]] for e in c['ins']])
+            cand = calls[:i] + [c2] + calls[i + 1:]
+            if fails(dict(doc, calls=cand)):
+                calls = cand
     used = set()
 
     def walk(x):
@@ -1388,7 +1403,8 @@ def shrink(cirq, vocab, doc, kind):
 
 def signature(doc, kind):
     """oracle kind + the non-basic calls the minimised history needs (or the whole call sequence if it needs none)."""
-    special = sorted({c['c'] for c in doc['calls'] if c['c'] not in BASIC})
+    special = sorted({c['c'] + ('-negative-index' if c['c'] == 'binsert' and any(e[0] < 0 for e in c['ins']) else '')
+                      for c in doc['calls'] if c['c'] not in BASIC})
     if special:
         return f'{kind}:' + '+'.join(special)
     return f'{kind}:' + '>'.join(c['c'] + (':' + c['s'] if 's' in c else '') for c in doc['calls'])
